@@ -758,6 +758,36 @@ def canary(chk: Check, tables):
     chk.note(f"canary: deviating routing table rejected ({len(probe.violations)} clauses)")
 
 
+def check_kind(chk, tables, kind, tier, seed):
+    """Everything that is run for one trainer kind (its own generator, so that a recorded
+    case can be re-run alone)."""
+    rng = random.Random(f"{seed}:{kind}")
+    quick = tier == "quick"
+    steps = 5 if quick else 8
+    hists = histories(rng, steps)
+    if not quick:      # two more random histories
+        hists = hists + [(f"random{j}", histories(rng, steps)[0][1]) for j in (2, 3)]
+    reds = ["sum"] if quick else ["sum", "mean", "amax"]
+    if quick and kind in ("STDP", "MSTDP", "HomeoWeight", "KernelSTDP", "DelayAdjustedSTDPD"):
+        reds = ["sum", "mean"]
+    for red in reds:
+        if kind in HOMEO_KINDS:
+            check_homeostasis(chk, tables, kind, red, [h for h in hists if h[0].startswith("random")],
+                              do_bounds=True)
+        else:
+            cfgs = rate_classes(kind)
+            check_match_kind(chk, tables, kind, red, hists, cfgs, do_bounds=(red == "sum"))
+            if kind in CLAMP_KINDS:
+                check_probe_kernels(chk, tables, kind, red, rng, steps)
+    # one trainer, several cells with per-cell overrides / connection kinds / histories
+    for rep_ in range(3 if quick else 12):
+        ncells = 2 + (rep_ % 2)
+        if kind in HOMEO_KINDS:
+            check_multi_homeostasis(chk, tables, kind, rng, steps, ncells)
+        else:
+            check_multi(chk, tables, kind, rng, steps, ncells, red_default=["sum", "mean", "amax"][rep_ % 3])
+
+
 def run(tier: str, seed: int) -> int:
     import os
     os.environ.setdefault("_JAVA_OPTIONS", "-Xmx2g")    # small models: keep the JVMs of this check small
@@ -779,28 +809,7 @@ def run(tier: str, seed: int) -> int:
     quick = tier == "quick"
     steps = 5 if quick else 8
     for kind in KINDS:
-        hists = histories(rng, steps)
-        if not quick:      # two more random histories
-            hists = hists + [(f"random{j}", histories(rng, steps)[0][1]) for j in (2, 3)]
-        reds = ["sum"] if quick else ["sum", "mean", "amax"]
-        if quick and kind in ("STDP", "MSTDP", "HomeoWeight", "KernelSTDP", "DelayAdjustedSTDPD"):
-            reds = ["sum", "mean"]
-        for red in reds:
-            if kind in HOMEO_KINDS:
-                check_homeostasis(chk, tables, kind, red, [h for h in hists if h[0].startswith("random")],
-                                  do_bounds=True)
-            else:
-                cfgs = rate_classes(kind)
-                check_match_kind(chk, tables, kind, red, hists, cfgs, do_bounds=(red == "sum"))
-                if kind in CLAMP_KINDS:
-                    check_probe_kernels(chk, tables, kind, red, rng, steps)
-        # one trainer, several cells with per-cell overrides / connection kinds / histories
-        for rep_ in range(3 if quick else 12):
-            ncells = 2 + (rep_ % 2)
-            if kind in HOMEO_KINDS:
-                check_multi_homeostasis(chk, tables, kind, rng, steps, ncells)
-            else:
-                check_multi(chk, tables, kind, rng, steps, ncells, red_default=["sum", "mean", "amax"][rep_ % 3])
+        check_kind(chk, tables, kind, tier, seed)
     canary(chk, tables)
     if "not_constructible" in chk.extra:
         chk.extra["not_constructible"] = sorted(chk.extra["not_constructible"])
@@ -808,8 +817,8 @@ def run(tier: str, seed: int) -> int:
 
 
 def replay(path: str) -> int:
-    """./check C09 --replay <file>: re-run the recorded trainer kind (same seed, every sign
-    configuration) and report whether the recorded clause fails again."""
+    """./check C09 --replay <file>: re-run everything recorded for that trainer kind (same
+    seed) and report whether the recorded clause fails again."""
     import json, os
     doc = json.load(open(path))
     sig = doc["signature"]
@@ -817,22 +826,13 @@ def replay(path: str) -> int:
     if kind not in KINDS:
         print(json.dumps(doc, indent=1)[:4000])
         return 2
+    os.environ.setdefault("_JAVA_OPTIONS", "-Xmx2g")
     seed = int(os.environ.get("VERIF_SEED", "20261003"))
-    chk = Check(PID, "quick", seed)
+    tier = os.environ.get("VERIF_TIER", "quick")
+    chk = Check(PID, tier, seed)
     chk.known = []
     tables = routing_tables(chk)
-    rng = random.Random(seed)
-    for k in KINDS:                       # consume the generator exactly as run() does
-        hists = histories(rng, 5)
-        if k != kind:
-            continue
-        red = doc["replay"].get("reduction", "sum")
-        if kind in HOMEO_KINDS:
-            check_homeostasis(chk, tables, kind, red, hists[:1], do_bounds=True)
-        else:
-            check_match_kind(chk, tables, kind, red, hists, rate_classes(kind), do_bounds=True)
-            if kind in CLAMP_KINDS:
-                check_probe_kernels(chk, tables, kind, red, rng, 5)
+    check_kind(chk, tables, kind, tier, seed)
     again = [v for v in chk.violations if v["signature"].get("clause") == sig.get("clause")]
     for v in chk.violations:
         print("  ", json.dumps(v["signature"], sort_keys=True))
